@@ -177,6 +177,7 @@ func Load(cfg Config) (*Prog, error) {
 	inlinableSet = map[*ssa.Function]bool{} // anchors are resolved on the plain decomposition
 	computeNonNilGlobals(p)
 	computeConstTables(p)
+	collectTableFns()
 	// resolve anchors
 	aliasOf = map[*ssa.Function]string{}
 	canonFn = map[string]*ssa.Function{}
